@@ -8,11 +8,12 @@ META = {
             'shape/order, match==outward[0], outward strictly nested around pos, inward nested.',
     'bounds': {
         'quick': 'HTML scan/attributes/match/balanced len<=3 (any int pos); CSS scan, match/balanced (any int pos), split_value '
-                 'len<=3; 21 half-typed documents (valid prefix + <=2 free characters)',
-        'thorough': 'HTML scan len<=4, attributes len<=3, HTML matchers len<=4; CSS scan/matchers/split_value len<=4; prefixes + <=3 free characters',
+                 'len<=3; 21 half-typed documents (valid prefix + <=2 free characters); every forest document of 6 nodes '
+                 '(HTML and CSS generators of C09/C10), whole and cut after 3/4 and 1/2 of its length, any int pos',
+        'thorough': 'HTML scan len<=4, attributes len<=3, HTML matchers len<=4; CSS scan/matchers/split_value len<=4; prefixes + <=3 free characters; forest documents of 7 nodes',
     },
     'outside_claim': ['strings longer than the bound', 'code points >= 128',
-                      'mutation of long valid documents (covered structurally by C09/C10 generators)'],
+                      'arbitrary mutation of long valid documents (only truncation of generated documents is explored)'],
 }
 
 
@@ -327,6 +328,52 @@ def mk_css_suffix(pi, n):
             'functions': ['emmet.css_matcher.scan.scan', 'match', 'balanced_outward', 'balanced_inward']}
 
 
+def mk_forest(lang, n, part, nparts):
+    """larger inputs than free strings reach: every ordered forest of n nodes rendered by the document generators, whole and
+    cut off after 3/4 and 1/2 of its length (half-typed), any integer position; oracle = the same totality/range clauses"""
+    from vf.gen import forest, htmldoc as H, cssdoc as C
+    from vf.util import pick_int
+    words = [w for i, w in enumerate(forest.dyck(n)) if i % nparts == part]
+    docs = []
+    for w in words:
+        if lang == 'html':
+            d = H.build(forest.html_kinds(w, 1, False, H), 1)[0]
+        else:
+            d = C.build(forest.css_kinds(w, 1, C), 1, stmts=True)[0]
+        docs += [d, d[:(3 * len(d)) // 4], d[:len(d) // 2]]
+    if lang == 'html':
+        inner = mk_html_match(0, 0, 128, False)['check']
+    else:
+        inner = mk_css_match(0, 0, 128)['check']
+        from emmet.css_matcher import scan
+
+    def h(i: int, pos: int):
+        if not (0 <= i < len(docs)):
+            return 'skip'
+        s = docs[pick_int(i, 0, len(docs) - 1)]
+        if lang == 'html':
+            r = check_html_tags(s, html_tags(s))
+            if r is not True:
+                return r
+        else:
+            toks = []
+            scan(s, lambda t, a, b, d: toks.append((t, a, b, d)))
+            for (t, a, b, d) in toks:
+                if not rng_ok(a, b, len(s)):
+                    return 'range_out_of_bounds'
+        return inner(s, pos)
+
+    def twin(i: int, pos: int):
+        if not (0 <= i < len(docs)):
+            return 'skip'
+        return 'twin'
+    return {'fn': h, 'twin': twin, 'witnesses': [{'i': 0, 'pos': 3}, {'i': len(docs) - 1, 'pos': 1}],
+            'assumptions': ['%s input = forest document %d mod %d of the %d forests with %d nodes, whole / first 3/4 / first half (solver-chosen '
+                            'index); pos any integer' % (lang, part, nparts, len(forest.dyck(n)), n)],
+            'functions': ['html_matcher.scan/match/balanced_outward/balanced_inward' if lang == 'html' else
+                          'css_matcher.scan/match/balanced_outward/balanced_inward (pooled ranges)']}
+
+
 def jobs(tier):
     q = tier == 'quick'
     plan = [
@@ -345,6 +392,12 @@ def jobs(tier):
     for pi in range(len(CSS_PREFIXES)):
         out.append(Job('C16-b/css-suffix/p%02d' % pi, 'vf.props.c16:mk_css_suffix', dict(pi=pi, n=2 if q else 3), shape='H',
                        bound='valid prefix + <=%d free chars' % (2 if q else 3), budget=900 if q else 3000, weight=5000))
+    fn = 6 if q else 7
+    fparts = 6 if q else 16
+    for lang in ('html', 'css'):
+        for part in range(fparts):
+            out.append(Job('C16-c/forest/%s/n=%d,part%d' % (lang, fn, part), 'vf.props.c16:mk_forest', dict(lang=lang, n=fn, part=part, nparts=fparts),
+                           shape='H', bound='forest documents of %d nodes, whole and cut' % fn, budget=1500 if q else 6000, weight=4000))
     for (tag, mk, n, extra) in plan:
         for (L, lo, hi) in ascii_partitions(n, split_from=3):
             p = dict(L=L, lo=lo, hi=hi)
